@@ -288,6 +288,22 @@ class Parser:
         while self.current().type in skip_types:
             self.advance()
 
+    def _take_comments_before(self, wanted: Any) -> list[str]:
+        """Consume column-0 comment lines if the next other token satisfies `wanted`.
+
+        Returns the comment texts, or [] (consuming nothing) when something else follows.
+        """
+        comments: list[str] = []
+        offset = 0
+        while self.peek(offset).type in (TokenType.COMMENT, TokenType.NEWLINE):
+            if self.peek(offset).type == TokenType.COMMENT:
+                comments.append(self.peek(offset).value)
+            offset += 1
+        if not comments or not wanted(self.peek(offset)):
+            return []
+        self.pos += offset
+        return comments
+
     def collect_leading_comments(self) -> list[str]:
         """Collect leading comment lines before a node.
 
@@ -531,12 +547,21 @@ class Parser:
             # Infer envelope for single doc
             doc.name = "INFERRED"
 
+        # Whole-line comments in the document header (between the envelope and META, or between
+        # META and the separator) have no node of their own. They are carried to the first body
+        # node; left in place they hid META (read as an ordinary block) and the separator (dropped).
+        header_comments = self._take_comments_before(
+            lambda t: t.type == TokenType.IDENTIFIER and t.value == "META"
+        )
+
         # Parse META block first if present
         if self.current().type == TokenType.IDENTIFIER and self.current().value == "META":
             meta_block = self.parse_meta_block()
             doc.meta = meta_block
             # Issue #182: Don't skip comments after META
             self.skip_whitespace(skip_comments=False)
+
+        header_comments += self._take_comments_before(lambda t: t.type == TokenType.SEPARATOR)
 
         # Check for separator
         if self.current().type == TokenType.SEPARATOR:
@@ -547,7 +572,7 @@ class Parser:
 
         # Parse document body
         # Issue #182: Track pending comments for next section
-        pending_comments: list[str] = []
+        pending_comments: list[str] = header_comments
         # GH#294: Track key positions for duplicate detection at document level
         doc_key_positions: dict[str, list[int]] = {}
 
